@@ -33,6 +33,9 @@ OPTIONS = {
     "xadd": [b"NOMKSTREAM", b"MAXLEN", b"MINID", b"LIMIT"],
     "xrange": [b"COUNT"],
     "hrandfield": [b"WITHVALUES"],
+    # glob patterns, well-formed and broken, whose literal prefix matches the populated keys kS..kX
+    "keys": [b"k?", b"k[A-Z]", b"k[", b"k[A-", b"k[A-\\", b"k[^A-\\", b"*[A-\\", b"k\\", b"[", b"k[]", b"k[\\",
+             b"k[^", b"k[]-", b"*\\", b"k[A-\\]", b"k*[", b"?[", b"k[-", b"k[\\]-\\"],
 }
 
 # commands that need a live connection / a running Raft node: executed only over TCP by C19 / C07
